@@ -53,6 +53,7 @@ func GenProgram(b Bias) *rapid.Generator[Program] {
 			LateGates: rapid.IntRange(0, 3).Draw(t, "lateGates") == 0,
 			CtxFlavor: rapid.SampledFrom([]int{CtxPlain, CtxPlain, CtxCause, CtxChild, CtxForeign}).Draw(t, "ctxFlavor"),
 		}
+		p.Sibling = rapid.IntRange(0, 5).Draw(t, "siblingLaneOnTheSameContext") == 0
 		if b.Cancel {
 			p.EarlyWaiter = rapid.IntRange(0, 4).Draw(t, "earlyWaiter") == 0
 			p.Abrupt = rapid.IntRange(0, 9).Draw(t, "abrupt") == 0
